@@ -184,7 +184,7 @@ def check_run(run, pre, classes):
         out.append(("leak", "library-owned blocks still allocated after fin(): " + run.ledger))
     for h in run.h:
         if h["op"][0] == "hold" and not h["res"].endswith("changed 0"):
-            out.append(("epoch", "memory handed out inside a session changed before leave: " + h["res"]))
+            out.append(("held", "memory handed out inside a session changed before leave: " + h["res"]))
     if run.trace:
         for b in epoch_order(run)[2]:
             out.append(("epoch", b))
@@ -409,6 +409,10 @@ def check_sessions(run, capacity):
                 fails.append((h["inv"], h["ret"]))
             else:
                 out.append(("session", "unexpected enter result " + h["res"]))
+        elif o == "probe" and h["res"].startswith("probe"):
+            w = h["res"].split()
+            if w[2] != "1" or w[4] == "0":
+                out.append(("session", "open session (tid %d op %d) found its own slot with running=%s begin_epoch=%s: it is not counted by the reclamation protocol" % (h["tid"], h["idx"], w[2], w[4])))
         elif o == "leave" and h["res"] == "OK":
             rec = by_tid.pop(h["tid"], None)
             if rec is not None:
